@@ -285,6 +285,22 @@ def gen_c19_programs(rng, n_each):
         src = (f"@guppy\ndef main() -> {rt}:\n    {', '.join(left)}, *mid, {', '.join(right)} = {rhs}\n"
                f"    return {', '.join(distinct)}, mid\n")
         yield "unpack-dup", src, [()], True
+    for _ in range(n_each):  # frozenarrays (comptime lists): FrozenarrayIter yields every element, in order, exactly once
+        n = rng.randrange(1, 6)
+        vals = [rng.randrange(1, 9) for _ in range(n)]
+        v = rng.random()
+        if v < 0.35:
+            src = (f"@guppy\ndef main(i: int, j: int) -> int:\n    acc = 0\n    for x in comptime({vals}):\n        acc = acc * 10 + x\n"
+                   "    return acc + i\n")
+        elif v < 0.6:
+            src = f"@guppy\ndef main(i: int, j: int) -> array[int, {n}]:\n    return array(x * 2 + i for x in comptime({vals}))\n"
+        elif v < 0.8:
+            src = (f"@guppy\ndef main(i: int, j: int) -> tuple[int, int]:\n    fs = comptime({vals})\n    acc = 0\n    cnt = 0\n"
+                   "    for x in fs:\n        acc = acc * 10 + x\n        cnt += 1\n    return acc, cnt + fs[j]\n")
+        else:
+            src = (f"@guppy\ndef main(i: int, j: int) -> array[int, {n}]:\n    xs = comptime({vals}).mutable_copy()\n    xs[j] = xs[j] + i\n"
+                   "    return xs\n")
+        yield "frozen", src, [(0, 0), (3, n - 1), (1, n), (2, -1)], True
     for _ in range(n_each):  # iteration order
         n = rng.randrange(0, 6)
         vals = [rng.randrange(1, 9) for _ in range(n)]
@@ -326,6 +342,7 @@ def c19_e2e(ctx):
         skipped += check_program(ctx, kind, src, inputs, f"input:e2e {kind} :: {src}", nontrivial=nontriv)
     ctx.extra["e2e_skipped"] = skipped
     copyable_lend(ctx)
+    starred_name_reuse(ctx)
 
 
 # ------------------------------------------------------------------ copyable ELEMENTS lent as borrowed arguments
@@ -486,3 +503,30 @@ def gen_copyable_lend(rng, n_each):
 def copyable_lend(ctx):
     for kind, src, cases in gen_copyable_lend(ctx.rng, 2 if ctx.quick else 12):
         check_expected(ctx, kind, src, cases, f"input:e2e {kind} :: {src}")
+
+
+def starred_name_reuse(ctx):
+    """`*a, a = xs`, `a, *a = xs`, `a, *a, a = xs` for arrays, tuples and sized iterables: Python binds the targets left to right.
+    /repo binds the starred target last (checker and compiler) — known deviation; every probe has its own key `input:starred-name <pattern> = <rhs>`, the six failing ones are listed in known_findings.json."""
+    progs = []
+    for rhs, n in (("array(1, 2, 3)", 3), ("(1, 2, 3)", 3), ("range(3)", 3)):
+        progs.append((f"@guppy\ndef main() -> int:\n    *a, a = {rhs}\n    return a\n", f"*a, a = {rhs}"))
+        progs.append((f"@guppy\ndef main() -> array[int, {n - 1}]:\n    a, *a = {rhs}\n    return a\n", f"a, *a = {rhs}"))
+        progs.append((f"@guppy\ndef main() -> int:\n    a, *a, a = {rhs}\n    return a\n", f"a, *a, a = {rhs}"))
+    for src, pat in progs:
+        ctx.count({"e2e": "starred-name", "src": src}, nontrivial=True, kind="e2e:starred-name")
+        try:
+            p = py_run(src, "main", ())
+        except Exception:  # noqa: BLE001
+            continue
+        try:
+            c = Compiled(src)
+            g = c.run((), "default")
+        except Exception as e:  # noqa: BLE001
+            g = ("rejected", type(e).__name__)
+        if g[0] == "skip":
+            continue
+        if not (g[0] in ("value", "panic") and agree(g, p)):
+            ctx.violation(f"input:starred-name {pat}", f"`{pat}`: the starred name occurs again among the plain targets; Python binds "
+                          f"left to right and gives {p}, /repo gives {g}; source:\n{src}",
+                          {"case": {"kind": "e2e", "what": "starred-name"}, "source": src, "real": repr(g), "oracle": repr(p)})
